@@ -33,6 +33,15 @@ def optedOf (mask : Nat) (i : Nat) : Bool := bit mask i
 
 def isMultiApi (api : String) : Bool := api == "multi" || api == "mstream" || api == "mcache"
 
+def expF (ws : List String) : List Nat :=
+  match field ws "exp" with
+  | some "_" => []
+  | some s => (s.splitOn ",").filterMap String.toNat?
+  | none => []
+
+def showCalls (l : List (Nat × Target)) : String :=
+  ",".intercalate (l.map fun (i, t) => toString i ++ "@" ++ t.show_)
+
 def standalone (ws : List String) : String :=
   let api := (field ws "api").getD ""
   let s : Standalone := ⟨flag ws "pred", natF ws "nrep", (optInt ws "sel").isSome, flag ws "az"⟩
@@ -43,6 +52,7 @@ def standalone (ws : List String) : String :=
     if api == "cache" || api == "mcache" then s.cache
     else if api == "multi" || api == "mstream" then s.multi os sel
     else s.one (os.headD false) sel
+  if flag ws "lft" then showCalls (s.multiCalls (api == "mcache") os sel (expF ws)) else
   t.show_
 
 def sentinel (ws : List String) : String :=
@@ -51,6 +61,7 @@ def sentinel (ws : List String) : String :=
   let mask := natF ws "mask"
   let os := (cmdsF ws).map (optedOf mask)
   let t := if isMultiApi api then c.multi os else c.pick (os.headD false)
+  if flag ws "lft" then showCalls (c.multiCalls os (expF ws)) else
   t.show_
 
 def shardOf (i : Nat) : Option Nat := if i < 2 then some 0 else if i < 4 then some 1 else none
